@@ -99,7 +99,7 @@ type DeclSpec struct {
 	Groups         []*GroupSpec `json:"groups,omitempty"`
 	Commands       []*CmdSpec   `json:"commands,omitempty"`
 	UnknownHandler string       `json:"unknown_handler,omitempty"` // "", "drop", "keep", "fail"
-	CmdHandler     string       `json:"cmd_handler,omitempty"`     // "", "log", "forward"
+	CmdHandler     string       `json:"cmd_handler,omitempty"`     // "", "log", "forward", "late-log" (none at first; the first option callback that runs installs a logging one)
 	CompHandler    bool         `json:"comp_handler,omitempty"`
 	Usage          string       `json:"usage,omitempty"`
 	ShortDesc      string       `json:"short_desc,omitempty"`
@@ -138,6 +138,21 @@ func (u *UM) UnmarshalFlag(s string) error {
 }
 
 func (u UM) MarshalFlag() (string, error) { return u.V, nil }
+
+// US is a named string type that implements Unmarshaler (pointer receiver): a
+// string that checks what it is given.
+type US string
+
+func (u *US) UnmarshalFlag(s string) error {
+	if err := cur.callee("unmarshal", s, nil); err != nil {
+		return err
+	}
+	if strings.HasPrefix(s, "bad") {
+		return errors.New("us: bad value")
+	}
+	*u = US(s)
+	return nil
+}
 
 // UList is a named slice type that unmarshals by accumulation.
 type UList []string
@@ -234,7 +249,7 @@ var scalarTypes = map[string]reflect.Type{
 	"uint": reflect.TypeOf(uint(0)), "uint8": reflect.TypeOf(uint8(0)), "uint16": reflect.TypeOf(uint16(0)), "uint32": reflect.TypeOf(uint32(0)), "uint64": reflect.TypeOf(uint64(0)),
 	"float32": reflect.TypeOf(float32(0)), "float64": reflect.TypeOf(float64(0)),
 	"duration": reflect.TypeOf(time.Duration(0)),
-	"um":       reflect.TypeOf(UM{}), "vv": reflect.TypeOf(VV("")), "cp": reflect.TypeOf(CP("")),
+	"um":       reflect.TypeOf(UM{}), "vv": reflect.TypeOf(VV("")), "cp": reflect.TypeOf(CP("")), "us": reflect.TypeOf(US("")),
 	"filename": reflect.TypeOf(flags.Filename("")),
 	"ulist":    reflect.TypeOf(UList(nil)),
 	"level":    reflect.TypeOf(Level(0)),
@@ -931,7 +946,7 @@ func (b *Built) addCmd(parent *flags.Command, c *CmdSpec, path []string, hidden 
 	if err != nil {
 		return err
 	}
-	fc.Aliases = c.Aliases
+	fc.Aliases = append([]string(nil), c.Aliases...) // (a copy: the parser's list is the program's to edit)
 	fc.Hidden = c.Hidden
 	fc.SubcommandsOptional = c.SubOptional
 	fc.Namespace = c.Namespace
